@@ -695,3 +695,142 @@ func checkRescanEventsForwarded(c *Ctx, rule string) {
 	}
 	c.Floor(rule, "rescan event arms in handleChainNotifications", n, 2)
 }
+
+// checkTypeSwitchArmsAssignSameVar (sibling agreement): in a type switch whose arms are alternative ways of
+// computing ONE result (each arm assigns exactly one variable that lives outside the arm, error variables
+// aside), all arms assign the same variable. An arm that assigns a different one (copy-paste from the sibling
+// switch) leaves the intended variable at its default and clobbers another — in GetTransactions the end of the
+// requested height range is then ignored and its start replaced, for one backend only.
+func checkTypeSwitchArmsAssignSameVar(c *Ctx, rule string, fns []*ssa.Function) {
+	_ = c.P
+	n := 0
+	for _, top := range fns {
+		if top == nil {
+			continue
+		}
+		for _, fn := range Closures(top) {
+			// collect comma-ok type assertions by operand
+			byX := map[ssa.Value][]*ssa.TypeAssert{}
+			for _, b := range fn.Blocks {
+				for _, ins := range b.Instrs {
+					if ta, ok := ins.(*ssa.TypeAssert); ok && ta.CommaOk {
+						byX[ta.X] = append(byX[ta.X], ta)
+					}
+				}
+			}
+			for _, tas := range byX {
+				if len(tas) < 2 {
+					continue
+				}
+				// split into switch instances: assertions whose blocks are connected through false edges
+				sort.Slice(tas, func(i, j int) bool { return tas[i].Pos() < tas[j].Pos() })
+				var groups [][]*ssa.TypeAssert
+				for _, ta := range tas {
+					placed := false
+					for gi, g := range groups {
+						last := g[len(g)-1]
+						// ta is in the failure continuation of `last`
+						for si := range last.Block().Succs {
+							ef := edgeFactOf(last.Block(), si)
+							if ef != nil && ef.Kind == "false" {
+								if ex, ok := ef.V.(*ssa.Extract); ok && ex.Tuple == ssa.Value(last) && last.Block().Succs[si] == ta.Block() {
+									groups[gi] = append(groups[gi], ta)
+									placed = true
+								}
+							}
+						}
+					}
+					if !placed {
+						groups = append(groups, []*ssa.TypeAssert{ta})
+					}
+				}
+				for _, g := range groups {
+					if len(g) < 2 {
+						continue
+					}
+					type armInfo struct {
+						ta   *ssa.TypeAssert
+						vars map[string]bool
+					}
+					var arms []armInfo
+					for _, ta := range g {
+						var entry *ssa.BasicBlock
+						for si := range ta.Block().Succs {
+							ef := edgeFactOf(ta.Block(), si)
+							if ef != nil && ef.Kind == "true" {
+								if ex, ok := ef.V.(*ssa.Extract); ok && ex.Tuple == ssa.Value(ta) {
+									entry = ta.Block().Succs[si]
+								}
+							}
+						}
+						if entry == nil {
+							continue
+						}
+						vars := map[string]bool{}
+						for _, b := range fn.Blocks {
+							if !entry.Dominates(b) {
+								continue
+							}
+							for _, ins := range b.Instrs {
+								st, ok := ins.(*ssa.Store)
+								if !ok {
+									continue
+								}
+								var name string
+								switch a := st.Addr.(type) {
+								case *ssa.Alloc:
+									if entry.Dominates(a.Block()) {
+										continue // arm-local
+									}
+									name = a.Comment
+								case *ssa.FreeVar:
+									name = a.Name()
+								default:
+									continue
+								}
+								if isErrorType(st.Val.Type()) {
+									continue
+								}
+								vars[name] = true
+							}
+						}
+						arms = append(arms, armInfo{ta, vars})
+					}
+					if len(arms) < 2 {
+						continue
+					}
+					single := true
+					for _, a := range arms {
+						if len(a.vars) != 1 {
+							single = false
+						}
+					}
+					if !single {
+						continue
+					}
+					n++
+					count := map[string]int{}
+					for _, a := range arms {
+						for v := range a.vars {
+							count[v]++
+						}
+					}
+					best := ""
+					for v, k := range count {
+						if k > count[best] || best == "" {
+							best = v
+						}
+					}
+					for _, a := range arms {
+						for v := range a.vars {
+							tn := a.ta.AssertedType.String()
+							c.Check(rule, fmt.Sprintf("type-switch-arms-assign-same-variable:%s/%s", outermost(fn).Name(), tn[strings.LastIndex(tn, ".")+1:]), a.ta.Pos(), v == best,
+								fmt.Sprintf("in %s the arm for %s assigns %q while its sibling arms assign %q: the value the switch is there to compute is left at its default for this case, and another variable is overwritten", fnName(fn), tn, v, best))
+						}
+					}
+				}
+			}
+		}
+	}
+	c.Floor(rule, "single-result type switches", n, 2)
+}
